@@ -10,6 +10,8 @@ os.makedirs(dst)
 for f in glob.glob(src + "/*"):
     if os.path.isfile(f) and os.path.getsize(f) < 200000:
         shutil.copy(f, dst)
+    elif os.path.isdir(f) and not os.path.basename(f).startswith((".", "__")):
+        shutil.copytree(f, os.path.join(dst, os.path.basename(f)), ignore=shutil.ignore_patterns("__pycache__", "*.pyc"))
 notes = open(os.path.join(src, "NOTES.md")).read() if os.path.exists(os.path.join(src, "NOTES.md")) else ""
 meta = {
     "id": sid, "breaks_property": prop,
